@@ -1453,12 +1453,30 @@ V(id='c13-benign-more-guard-bits-in-pow', prop='C13', file='mpmath/libmp/libelef
   old="    wp = prec + 10 + max(0, texp + tbc + bitcount(abs(sexp + sbc)))",
   new="    wp = prec + 20 + max(0, texp + tbc + bitcount(abs(sexp + sbc)))",
   expect='silent')
-V(id='c07-shared-prefix-sign-ignored', prop='C07', file='mpmath/libmp/libmpi.py',
-  old="            if x.startswith('-'):\n                lower, upper = upper, lower\n", new="",
+V(id='c07-shared-prefix-order-ignored', prop='C07', file='mpmath/libmp/libmpi.py',
+  old="            if mpf_gt(from_str(lower, wp, round_floor),\n                      from_str(upper, wp, round_floor)):\n                lower, upper = upper, lower\n", new="",
   expect='fire:C-R7:mpi_from_str')
-V(id='c14-shared-prefix-sign-ignored', prop='C14', file='mpmath/libmp/libmpi.py',
-  old="            if x.startswith('-'):\n                lower, upper = upper, lower\n", new="",
+V(id='c14-shared-prefix-order-ignored', prop='C14', file='mpmath/libmp/libmpi.py',
+  old="            if mpf_gt(from_str(lower, wp, round_floor),\n                      from_str(upper, wp, round_floor)):\n                lower, upper = upper, lower\n", new="",
   expect='fire:C-R6:mpi_from_str')
+V(id='c07-shared-prefix-by-sign-only', prop='C07', file='mpmath/libmp/libmpi.py',
+  old="            if mpf_gt(from_str(lower, wp, round_floor),\n                      from_str(upper, wp, round_floor)):\n", new="            if x.startswith('-'):\n",
+  expect='fire:C-R7:mpi_from_str')
+V(id='c07-shared-prefix-swap-wrong-way', prop='C07', file='mpmath/libmp/libmpi.py',
+  old="            if mpf_gt(from_str(lower, wp, round_floor),\n                      from_str(upper, wp, round_floor)):\n", new="            if mpf_lt(from_str(lower, wp, round_floor),\n                      from_str(upper, wp, round_floor)):\n",
+  expect='fire:C-R7:mpi_from_str')
+V(id='c07-benign-shared-prefix-lt-reversed', prop='C07', file='mpmath/libmp/libmpi.py',
+  old="            if mpf_gt(from_str(lower, wp, round_floor),\n                      from_str(upper, wp, round_floor)):\n", new="            if mpf_lt(from_str(upper, wp, round_floor),\n                      from_str(lower, wp, round_floor)):\n",
+  expect='silent')
+V(id='c07-empty-prefix-exponent-as-plain', prop='C07', file='mpmath/libmp/libmpi.py',
+  old="        if s[0] == '[' and s[-1] == ']':", new="        if s[0] == '[':", expect='fire:C-R7:mpi_from_str')
+V(id='c14-empty-prefix-exponent-as-plain', prop='C14', file='mpmath/libmp/libmpi.py',
+  old="        if s[0] == '[' and s[-1] == ']':", new="        if s[0] == '[':", expect='fire:C-R6:mpi_from_str')
+V(id='c07-plus-minus-percent-rejected', prop='C07', file='mpmath/libmp/libmpi.py',
+  old="        percent = y.endswith(\"%\")\n        if percent:\n            y = y[:-1]\n        return mpi_from_str_a_b(x, y, percent, prec)", new="        return mpi_from_str_a_b(x, y, False, prec)",
+  expect='fire:C-R7:mpi_from_str')
+V(id='c07-upper-case-exponent-rejected', prop='C07', file='mpmath/libmp/libmpi.py',
+  old='    s = s.replace(" ", "").lower()', new='    s = s.replace(" ", "")', expect='fire:C-R7:mpi_from_str')
 V(id='c14-new-transcendental-endpoint', prop='C14', file='mpmath/libmp/libmpi.py',
   old="def mpi_atan2(y, x, prec):", new="def mpi_expm1_like(x, prec):\n    a, b = x\n    return mpf_exp(a, prec, round_floor), mpf_exp(b, prec, round_ceiling)\n\ndef mpi_atan2(y, x, prec):",
   expect='fire:C-R14:mpi_expm1_like')
@@ -2066,4 +2084,22 @@ V(id='c06-mod-opposite-sign-forgets-zero', prop='C06', file='mpmath/libmp/libmpf
   expect='fire:S-R1:mpf_mod')
 V(id='c06-benign-mod-guard-reordered', prop='C06', file='mpmath/libmp/libmpf.py',
   old="    if texp > sexp+sbc:\n        if ssign == tsign or not sman:", new="    if sexp + sbc < texp:\n        if not sman or ssign == tsign:",
+  expect='silent')
+
+# ---- C07 / C08 L-R1 (fix 22a0c75): digit strings reach int() only in bounded pieces ----
+V(id='c07-mantissa-direct-int', prop='C07', file='mpmath/libmp/libmpf.py',
+  old="    x = MPZ(str_to_int(x, base))\n", new="    x = MPZ(int(x, base))\n", expect='fire:L-R1:str_to_man_exp')
+V(id='c08-mantissa-direct-int', prop='C08', file='mpmath/libmp/libmpf.py',
+  old="    x = MPZ(str_to_int(x, base))\n", new="    x = MPZ(int(x, base))\n", expect='fire:L-R1:str_to_man_exp')
+V(id='c07-fraction-direct-int', prop='C07', file='mpmath/libmp/libmpf.py',
+  old="from_rational(str_to_int(p), str_to_int(q), prec, rnd)", new="from_rational(int(p), str_to_int(q), prec, rnd)",
+  expect='fire:L-R1:from_str')
+V(id='c07-chunk-larger-than-limit', prop='C07', file='mpmath/libmp/libmpf.py',
+  old="    if len(x) <= 600:\n        return int(x, base)", new="    if len(x) <= 6000:\n        return int(x, base)",
+  expect='fire:L-R1:str_to_int')
+V(id='c07-chunk-helper-not-splitting', prop='C07', file='mpmath/libmp/libmpf.py',
+  old="    return str_to_int(x[:-half], base) * base**half + str_to_int(x[-half:], base)", new="    return int(x, base)",
+  expect='fire:L-R1:str_to_int')
+V(id='c07-benign-smaller-chunks', prop='C07', file='mpmath/libmp/libmpf.py',
+  old="    if len(x) <= 600:\n        return int(x, base)", new="    if len(x) <= 400:\n        return int(x, base)",
   expect='silent')
